@@ -44,10 +44,20 @@ type FDiff struct {
 	Resolved bool
 }
 
+// A TreeNode is one accumulator node core's ForEachTreeNode emits for a block.
+type TreeNode struct {
+	Row, Col uint64
+	Hash     types.Hash256
+}
+
 // Diffs is what ApplyBlock / RevertBlock get from core, in core's order.
 type Diffs struct {
 	SC, SF []EDiff
 	FC     []FDiff
+	// Tree: the accumulator nodes of the update, in emission order; NumLeaves: the size of
+	// the accumulator the update leads to (the state handed to the store with it)
+	Tree      []TreeNode
+	NumLeaves uint64
 }
 
 func scPay(e types.SiacoinElement) []byte {
@@ -87,14 +97,24 @@ func export(sc []consensus.SiacoinElementDiff, sf []consensus.SiafundElementDiff
 	return
 }
 
-// ApplyDiffs exports the diff lists of an apply update.
-func ApplyDiffs(cau consensus.ApplyUpdate) Diffs {
-	return export(cau.SiacoinElementDiffs(), cau.SiafundElementDiffs(), cau.FileContractElementDiffs())
+// ApplyDiffs exports the diff lists of an apply update; s is the state after the block.
+func ApplyDiffs(s consensus.State, cau consensus.ApplyUpdate) Diffs {
+	d := export(cau.SiacoinElementDiffs(), cau.SiafundElementDiffs(), cau.FileContractElementDiffs())
+	cau.ForEachTreeNode(func(row, col uint64, h types.Hash256) {
+		d.Tree = append(d.Tree, TreeNode{row, col, h})
+	})
+	d.NumLeaves = s.Elements.NumLeaves
+	return d
 }
 
-// RevertDiffs exports the diff lists of a revert update.
-func RevertDiffs(cru consensus.RevertUpdate) Diffs {
-	return export(cru.SiacoinElementDiffs(), cru.SiafundElementDiffs(), cru.FileContractElementDiffs())
+// RevertDiffs exports the diff lists of a revert update; s is the state reverted to.
+func RevertDiffs(s consensus.State, cru consensus.RevertUpdate) Diffs {
+	d := export(cru.SiacoinElementDiffs(), cru.SiafundElementDiffs(), cru.FileContractElementDiffs())
+	cru.ForEachTreeNode(func(row, col uint64, h types.Hash256) {
+		d.Tree = append(d.Tree, TreeNode{row, col, h})
+	})
+	d.NumLeaves = s.Elements.NumLeaves
+	return d
 }
 
 // CheckL1 checks law L1 on one block: the revert diff lists are the apply diff
